@@ -96,6 +96,8 @@ def gen_oas_schema(rng, depth, nn="nullable", spice=0.0, top=True):
         if rng.random() < 0.12:
             s["not"] = rng.choice([{"required": [rng.choice(NAMES)]}, {"type": "string"},
                                    gen_oas_schema(rng, depth - 1, nn, spice, False)])
+        if rng.random() < 0.08:
+            del s["type"]  # `properties` without `type: object` (common in real documents)
     else:  # comb
         k = rng.choice(["allOf", "anyOf", "oneOf", "not"])
         s = {}
